@@ -244,6 +244,41 @@ def keyEq : Val → Val → Bool
 
 def listSet (vs : List Val) (i : Nat) (v : Val) : List Val := vs.set i v
 
+/-- What happens when the element loop of `genReadArray` reaches an index `i ≥ N`: Go evaluates
+    `arr[i]` (and panics "index out of range") at the point where the emitted code first touches
+    the element: immediately for scalar, enum and struct elements (`&arr[i]` is an argument /
+    receiver), but only after the element's head and length were read successfully for vector and
+    map elements (`arr[i] = make(…)` / `ReadSliceInt8(&arr[i], …)`); errors of those reads win. -/
+def arrOverflow (e : Ty) : RM Val := fun r =>
+  match e with
+  | .vec ee =>
+    match skipToNoCheck 0 true r with
+    | (.error er, r') => (.error er, r')
+    | (.ok (_, tyCur), r1) =>
+      if tyCur = tyLIST then
+        match readLen r1 with
+        | (.error er, r') => (.error er, r')
+        | (.ok len, r2) => if len < 0 then (.error (.panic "makeslice"), r2) else (.error (.panic "index"), r2)
+      else if tyCur = tySimpleList then
+        if ee = .i8 ∨ ee = .u8 then
+          match skipTo tyBYTE 0 true r1 with
+          | (.error er, r') => (.error er, r')
+          | (.ok _, r2) =>
+            match readLen r2 with
+            | (.error er, r') => (.error er, r')
+            | (.ok _, r3) => (.error (.panic "index"), r3)
+        else (.error .mismatch, r1)
+      else (.error .mismatch, r1)
+  | .arr _ _ => (.error (.panic "index"), r)
+  | .map _ _ =>
+    match skipTo tyMAP 0 true r with
+    | (.error er, r') => (.error er, r')
+    | (.ok _, r1) =>
+      match readLen r1 with
+      | (.error er, r') => (.error er, r')
+      | (.ok _, r2) => (.error (.panic "index"), r2)
+  | _ => (.error (.panic "index"), r)
+
 mutual
 /-- code emitted by `genReadVar`; `old` is the current value of the target -/
 def decVar (env : Env) : Nat → Nat → Bool → Ty → Val → RM Val
@@ -342,7 +377,7 @@ def decArr (env : Env) : Nat → Ty → Nat → Nat → Int → List Val → RM 
   | 0, _, _, _, _, _ => RM.fail .fuel
   | fuel+1, e, n, i, len, cur => fun r =>
     if (i : Int) ≥ len then (.ok (.list cur), r)
-    else if i ≥ n then (.error (.panic "index"), r)
+    else if i ≥ n then arrOverflow e r
     else
       match decVar env fuel 0 true e (cur.getD i (zeroOf env e)) r with
       | (.error er, r') => (.error er, r')
@@ -376,9 +411,13 @@ def decMembers (env : Env) : Nat → List Field → List Val → RM (List Val)
     | _, _ => (.ok [], r)
 end
 
-/-- fuel sufficient for decoding from a reader: every recursive call consumes a byte, a schema
-    nesting level, or a loop iteration (bounded by the bytes left) -/
-def decFuel (env : Env) (r : Reader) : Nat := 4 * r.data.size + 4 * env.length + 64
+/-- largest member count of any struct of the schema -/
+def Env.width (env : Env) : Nat := env.foldr (fun p m => max p.2.length m) 0
+
+/-- fuel sufficient for decoding from a reader (theorem `C05_terminates`): fuel is a call-depth
+    budget; `decMembers` spends one unit per member (also for an absent optional member, which
+    consumes no input), entering a nested struct / reading an element consumes at least one byte. -/
+def decFuel (env : Env) (r : Reader) : Nat := (env.width + 3) * (r.data.size + 2)
 
 /-- `st.ReadFrom(readBuf)` for struct `name` into a target currently holding `old` -/
 def decStruct (env : Env) (name : String) (old : Val) : RM Val := fun r =>
